@@ -158,7 +158,7 @@ def body(cfg, pres, labs):
     return models.untraced(check_case, cfg, cp, cl)   # ... then the concrete remainder runs natively
 
 
-for N, ids, tier in ((3, [0, 1, 2], "quick"), (3, [0, 1, 2, 3], "thorough"), (4, [0, 1], "thorough"), (3, [1, 3, 4], "thorough")):
+for N, ids, tier in ((3, [0, 1, 2], "quick"), (3, [0, 1, 2, 3], "thorough")):
     for fl in ((True, True), (True, False), (False, True), (False, False)):
         if tier == "thorough" and not fl[0]:
             continue                  # (F,T) and (F,F) are the label-swapped images of (T,F) and (T,T)
@@ -170,7 +170,7 @@ for N, ids, tier in ((3, [0, 1, 2], "quick"), (3, [0, 1, 2, 3], "thorough"), (4,
         for pi, (st, dl) in enumerate(parts):
             REG.add("conf_N%d_ids%s_l%d%d_p%d" % (N, "".join(map(str, ids)), fl[0], fl[1], pi), T_conf, body,
                     cfg=dict(N=N, ids=ids, fixlabs=list(fl), starts=st, deltas=dl, types=TYPES, sliding_types=3 if tier == "quick" else 5),
-                    tier=tier if (tier == "thorough" or (fl[0] and pi < 3)) else "thorough", timeout=1500 if tier == "quick" else 3000,
+                    tier=tier if (tier == "thorough" or (fl[0] and pi < 3)) else "thorough", timeout=1500 if tier == "quick" else 6000,
                     tags=["dense"] + (["homogeneous"] if fl[0] == fl[1] else []), twins=1,
                     bounds="every DynGraph on %d nodes over snapshot ids %s (one presence bit per pair and id: exhaustive), every 2-valued "
                            "labelling with the first two labels fixed to %s; start in %s, delta in %s, alphas %s, all five path types" %
@@ -188,7 +188,7 @@ for _pi in range(16):
     REG.add("conf_chain4_p%02d" % _pi, T_conf, body,
             cfg=dict(N=4, ids=[0, 1, 2, 3], pairs=[(0, 1), (1, 2), (2, 3), (0, 2)], fixlabs=[True, True, True, True], prefix=_prefix,
                      starts=[0], deltas=[3], types=TYPES, sliding_types=0),
-            tier="thorough", timeout=3000, tags=["dense", "homogeneous"], twins=1,
+            tier="thorough", timeout=6000, tags=["dense", "homogeneous"], twins=1,
             bounds="every DynGraph on 4 nodes over snapshot ids [0,1,2,3] whose interactions are among 0-1, 1-2, 2-3, 0-2 and whose "
                    "first 4 presence bits are %s (partition %d of 16), all nodes share one label; start 0, delta 3, alphas %s, five "
                    "path types" % (_prefix, _pi, ALPHAS),
